@@ -194,12 +194,15 @@ def cli_runs(chk, cfg_cache, ref_cache):
                 logging.getLogger().setLevel(logging.ERROR)
             n += 1
             want = [(nm, s_) for nm in names for s_ in range(ck[1])]
+            if sorted((c[0], c[1]) for c in captured) != sorted(want):
+                chk.violation("bldfm run performed the single runs %s, not one per tower and time step %s" % ([(c[0], c[1]) for c in captured], want), sc, klass={"check": "cli_runs"})
+                continue
+            # the order of the loop and the moment the thread setting is applied are the specification's form, not the
+            # property's: drift
             if [(c[0], c[1]) for c in captured] != want:
-                chk.violation("bldfm run performed the single runs %s, expected towers outer / steps inner %s" % ([(c[0], c[1]) for c in captured], want), sc, klass={"check": "cli_order"})
-                continue
+                chk.drift_note("bldfm run performed the single runs in the order %s, the specification's loop is towers outer / steps inner" % ([(c[0], c[1]) for c in captured],))
             if any(c[2] != threads for c in captured):
-                chk.violation("bldfm run did not apply parallel.num_threads=%d before solving (saw %s)" % (threads, sorted({c[2] for c in captured})), sc, klass={"check": "cli_threads"})
-                continue
+                chk.drift_note("bldfm run did not apply parallel.num_threads=%d before solving (saw %s)" % (threads, sorted({c[2] for c in captured})))
             refs = ref_cache[ck]
             for nm, s_, _, out in captured:
                 ref = refs[(nm, s_)]
